@@ -56,6 +56,28 @@ IDf(Y, X, Pe, G) ==
 
 IDRef(G, X, Y) == IDf(Y, X, ObsJoint(G.n), G)
 
+\* which lines fire, and whether a line 7 came earlier on the same recursion path: the set of <<line, after a line 7>>
+\* (structure only).  <<2, TRUE>> marks the inputs on which line 2 prunes a sub-problem that line 7 created.
+RECURSIVE IDSteps(_, _, _, _)
+IDSteps(Y, X, G, after7) ==
+  LET V   == G.n
+      AnY == An(G, Y)
+      W   == (V \ X) \ An(RemoveIn(G, X), Y)
+      GX  == SubG(G, V \ X)
+      CX  == Districts(GX)
+      here(l) == {<<l, after7>>}
+  IN IF X = {} THEN here(1)
+     ELSE IF V \ AnY # {} THEN here(2) \cup IDSteps(Y, X \cap AnY, SubG(G, AnY), after7)
+     ELSE IF W # {} THEN here(3) \cup IDSteps(Y, X \cup W, G, after7)
+     ELSE IF Cardinality(CX) > 1 THEN
+        here(4) \cup UNION {IDSteps(District(GX, m), V \ District(GX, m), G, after7) : m \in {Min(S) : S \in CX}}
+     ELSE LET S == Pick(CX) IN
+        IF Districts(G) = {V} THEN here(5)
+        ELSE IF S \in Districts(G) THEN here(6)
+        ELSE LET Sp == Pick({D \in Districts(G) : S \subseteq D}) IN here(7) \cup IDSteps(Y, X \cap Sp, SubG(G, Sp), TRUE)
+\* line 2 or line 4 (or line 7 again) inside a sub-problem that line 7 created
+DeepAfter7(Y, X, G) == \E st \in IDSteps(Y, X, G, FALSE) : st[2] /\ st[1] \in {2, 3, 4, 7}
+
 \* how many times line 7 is applied along one recursion path of ID (structure only; 0 for queries that never reach it):
 \* used by the generators to find the inputs on which the current distribution of a line-7 sub-problem is itself the
 \* result of a line 7 (these start at 5 nodes)
@@ -135,6 +157,13 @@ HedgeEx(G, X, Y) ==
 Rule2(G, X, Y, Z, z) ==
   LET GH == RemoveOut(RemoveIn(G, X), {z}) IN
   \A y \in Y : MSepPath(GH, y, z, (X \cup Z) \ {z})
+
+\* the final ID call of IDC: <<treatments, outcomes>> after every applicable rule-2 exchange
+RECURSIVE IDCFinal(_, _, _, _)
+IDCFinal(G, X, Y, Z) ==
+  IF \E z \in Z : Rule2(G, X, Y, Z, z)
+  THEN LET z == Min({z \in Z : Rule2(G, X, Y, Z, z)}) IN IDCFinal(G, X \cup {z}, Y, Z \ {z})
+  ELSE <<X, Y \cup Z>>
 
 RECURSIVE IDCf(_, _, _, _)
 IDCf(G, X, Y, Z) ==
